@@ -1,5 +1,8 @@
 (** * Proofs about the N-Triples reader model after the tokeniser repairs
-    (token-end-before-dot, closing-quote-scan): [Model.NtReader.*_fx]. *)
+    (token-end-before-dot, closing-quote-scan): [Model.NtReader.*_g], for both values of the
+    switches [hs] (a token also ends at '#') and [el] (a '<' without '>' reaches the end of the
+    line) of the repair comment-glued-to-dot; the [_fx] / [_fx2] readers are the instances
+    [false false]. *)
 From Coq Require Import List Ascii String ZArith Bool Lia Arith.
 From Shexer Require Import Lib.PyStr Gen.Consts Model.NtReader Spec.NtSyntax Spec.NtDom
   Proofs.NtStrLemmas Proofs.NtProofs.
@@ -7,16 +10,38 @@ Import ListNotations.
 Local Open Scope Z_scope.
 
 (** ** [_index_of_token_end], repaired *)
-Definition token_follow_fx (z : str) : Prop :=
-  (exists c z', z = c :: z' /\ is_blank c = true) \/ z = ["."%char] \/
-  (exists c z', z = "."%char :: c :: z' /\ is_blank c = true).
+Lemma is_stop_blank hs c : is_blank c = true -> is_stop hs c = true.
+Proof. unfold is_stop. intros ->. reflexivity. Qed.
 
-Lemma index_of_token_end_fx_spec x d z :
-  forallb (fun c => negb (is_blank c)) (x ++ [d]) = true -> d <> "."%char -> token_follow_fx z ->
-  index_of_token_end_fx ((x ++ [d]) ++ z) = len (x ++ [d]).
+Lemma is_stop_hash : is_stop true "#"%char = true.
+Proof. reflexivity. Qed.
+
+Lemma first_stop_none hs s : forallb (fun c => negb (is_stop hs c)) s = true -> first_stop hs s = None.
 Proof.
-  intros H Hd [(c & z' & -> & Hc) | [-> | (c & z' & -> & Hc)]]; unfold index_of_token_end_fx.
-  - rewrite first_blank_app by assumption.
+  induction s as [|c s IH]; intros H; [reflexivity|]. cbn [forallb first_stop] in *. apply andb_true_iff in H. destruct H as [H1 H2].
+  destruct (is_stop hs c); [discriminate|]. rewrite IH by exact H2. reflexivity.
+Qed.
+
+Lemma first_stop_app hs x c z :
+  forallb (fun c => negb (is_stop hs c)) x = true -> is_stop hs c = true ->
+  first_stop hs (x ++ c :: z) = Some (List.length x).
+Proof.
+  intros H Hc. induction x as [|d x IH]; cbn [forallb first_stop app List.length] in *.
+  - rewrite Hc. reflexivity.
+  - apply andb_true_iff in H. destruct H as [H1 H2]. destruct (is_stop hs d); [discriminate|].
+    rewrite IH by exact H2. reflexivity.
+Qed.
+
+Definition token_follow_g (hs : bool) (z : str) : Prop :=
+  (exists c z', z = c :: z' /\ is_stop hs c = true) \/ z = ["."%char] \/
+  (exists c z', z = "."%char :: c :: z' /\ is_stop hs c = true).
+
+Lemma index_of_token_end_g_spec hs x d z :
+  forallb (fun c => negb (is_stop hs c)) (x ++ [d]) = true -> d <> "."%char -> token_follow_g hs z ->
+  index_of_token_end_g hs ((x ++ [d]) ++ z) = len (x ++ [d]).
+Proof.
+  intros H Hd [(c & z' & -> & Hc) | [-> | (c & z' & -> & Hc)]]; unfold index_of_token_end_g.
+  - rewrite first_stop_app by assumption.
     assert (P : 0 <? Z.of_nat (List.length (x ++ [d])) = true).
     { apply Z.ltb_lt. rewrite app_length. cbn. lia. }
     rewrite P. cbn [andb].
@@ -24,12 +49,12 @@ Proof.
     rewrite <- app_assoc. cbn [app]. rewrite at_idx_app.
     change (ch nt_statement_end) with "."%char.
     assert (Ascii.eqb d "." = false) as -> by (apply Ascii.eqb_neq; exact Hd). reflexivity.
-  - rewrite first_blank_none.
+  - rewrite first_stop_none.
     + change nt_statement_end with ["."%char]. rewrite suffixb_app_end. rewrite len_app. cbn. lia.
-    + rewrite forallb_app, H. reflexivity.
+    + rewrite forallb_app, H. destruct hs; reflexivity.
   - replace ((x ++ [d]) ++ "."%char :: c :: z') with (((x ++ [d]) ++ ["."%char]) ++ c :: z')
       by (rewrite <- !app_assoc; reflexivity).
-    rewrite first_blank_app; [|rewrite forallb_app, H; reflexivity | exact Hc].
+    rewrite first_stop_app; [|rewrite forallb_app, H; destruct hs; reflexivity | exact Hc].
     assert (P : 0 <? Z.of_nat (List.length ((x ++ [d]) ++ ["."%char])) = true).
     { apply Z.ltb_lt. rewrite !app_length. cbn. lia. }
     rewrite P. cbn [andb].
@@ -39,120 +64,135 @@ Proof.
     change (ch nt_statement_end) with "."%char. rewrite Ascii.eqb_refl. unfold len. rewrite !app_length. cbn. lia.
 Qed.
 
-(** ** one step of [look_loop_fx] *)
-Lemma lookx_skip f pre c post acc : is_ws c = true ->
-  look_loop_fx (S f) (pre ++ c :: post) (len pre) acc = look_loop_fx f (pre ++ c :: post) (len pre + 1) acc.
+(** [_look_for_last_index_of_uri_token] on a closed IRI: the switch [el] plays no part *)
+Lemma last_index_uri_g_spec el pre u post : ~ In gt_c u ->
+  last_index_uri_g el (pre ++ r_iri u ++ post) (len pre) = len pre + len (r_iri u) - 1.
 Proof.
-  intros H. cbn [look_loop_fx]. rewrite neq_len_app, at_idx_app.
+  intros H. unfold last_index_uri_g. rewrite slice_from_app. unfold r_iri.
+  change s_gt with [gt_c].
+  replace ((lt_c :: u ++ [gt_c]) ++ post) with ((lt_c :: u) ++ gt_c :: post)
+    by (cbn [app]; rewrite <- app_assoc; reflexivity).
+  rewrite (find_of_nat _ _ _ (find_nat_char_app gt_c (lt_c :: u) post
+             (notin_cons gt_c lt_c u ltac:(discriminate) H))).
+  assert (N : (Z.of_nat (List.length (lt_c :: u)) <? 0) = false) by (apply Z.ltb_ge; lia).
+  rewrite N, andb_false_r.
+  rewrite !len_app, !len_cons, len_app, len_cons, len_nil. unfold len. cbn [List.length]. lia.
+Qed.
+
+(** ** one step of [look_loop_g] *)
+Lemma lookx_skip hs el f pre c post acc : is_ws c = true ->
+  look_loop_g hs el (S f) (pre ++ c :: post) (len pre) acc = look_loop_g hs el f (pre ++ c :: post) (len pre + 1) acc.
+Proof.
+  intros H. cbn [look_loop_g]. rewrite neq_len_app, at_idx_app.
   destruct (is_ws_cases _ H) as [-> | ->]; reflexivity.
 Qed.
 
-Lemma lookx_skips w : forall f pre post acc, all_ws w = true ->
-  look_loop_fx (List.length w + f) (pre ++ w ++ post) (len pre) acc
-  = look_loop_fx f (pre ++ w ++ post) (len pre + len w) acc.
+Lemma lookx_skips hs el w : forall f pre post acc, all_ws w = true ->
+  look_loop_g hs el (List.length w + f) (pre ++ w ++ post) (len pre) acc
+  = look_loop_g hs el f (pre ++ w ++ post) (len pre + len w) acc.
 Proof.
   induction w as [|c w IH]; intros f pre post acc H.
   - cbn [List.length app Nat.add]. rewrite len_nil, Z.add_0_r. reflexivity.
   - cbn [all_ws forallb] in H. apply andb_true_iff in H. destruct H as [Hc Hw].
-    cbn [List.length Nat.add app]. rewrite lookx_skip by exact Hc.
+    cbn [List.length Nat.add app]. rewrite (lookx_skip hs el) by exact Hc.
     replace (pre ++ c :: w ++ post) with ((pre ++ [c]) ++ w ++ post) by (rewrite <- app_assoc; reflexivity).
     replace (len pre + 1) with (len (pre ++ [c])) by (rewrite len_app; reflexivity).
     rewrite IH by exact Hw. f_equal. rewrite len_app, !len_cons, len_nil. lia.
 Qed.
 
-Lemma lookx_dot f pre post acc :
-  look_loop_fx (S f) (pre ++ "."%char :: post) (len pre) acc = Ok (rev acc).
-Proof. cbn [look_loop_fx]. rewrite neq_len_app, at_idx_app. reflexivity. Qed.
+Lemma lookx_dot hs el f pre post acc :
+  look_loop_g hs el (S f) (pre ++ "."%char :: post) (len pre) acc = Ok (rev acc).
+Proof. cbn [look_loop_g]. rewrite neq_len_app, at_idx_app. reflexivity. Qed.
 
-Lemma lookx_uri f pre u post acc : ~ In gt_c u ->
-  look_loop_fx (S f) (pre ++ r_iri u ++ post) (len pre) acc
-  = look_loop_fx f (pre ++ r_iri u ++ post) (len pre + len (r_iri u)) (r_iri u :: acc).
+Lemma lookx_uri hs el f pre u post acc : ~ In gt_c u ->
+  look_loop_g hs el (S f) (pre ++ r_iri u ++ post) (len pre) acc
+  = look_loop_g hs el f (pre ++ r_iri u ++ post) (len pre + len (r_iri u)) (r_iri u :: acc).
 Proof.
-  intros H. cbn [look_loop_fx].
+  intros H. cbn [look_loop_g].
   unfold r_iri at 1 2. rewrite neq_len_app', at_idx_app'. fold (r_iri u).
   replace (Ascii.eqb lt_c ch_uri) with true by reflexivity.
-  rewrite last_index_uri_spec by exact H.
+  rewrite last_index_uri_g_spec by exact H.
   rewrite slice_tok by reflexivity. f_equal. lia.
 Qed.
 
-Lemma lookx_bnode f pre x d post acc :
-  forallb (fun c => negb (is_blank c)) (("_"%char :: x) ++ [d]) = true -> d <> "."%char -> token_follow_fx post ->
-  look_loop_fx (S f) (pre ++ (("_"%char :: x) ++ [d]) ++ post) (len pre) acc
-  = look_loop_fx f (pre ++ (("_"%char :: x) ++ [d]) ++ post) (len pre + len (("_"%char :: x) ++ [d]))
+Lemma lookx_bnode hs el f pre x d post acc :
+  forallb (fun c => negb (is_stop hs c)) (("_"%char :: x) ++ [d]) = true -> d <> "."%char -> token_follow_g hs post ->
+  look_loop_g hs el (S f) (pre ++ (("_"%char :: x) ++ [d]) ++ post) (len pre) acc
+  = look_loop_g hs el f (pre ++ (("_"%char :: x) ++ [d]) ++ post) (len pre + len (("_"%char :: x) ++ [d]))
       ((("_"%char :: x) ++ [d]) :: acc).
 Proof.
-  intros H Hd T. cbn [look_loop_fx].
+  intros H Hd T. cbn [look_loop_g].
   change (("_"%char :: x) ++ [d]) with ("_"%char :: (x ++ [d])) at 1 2.
   rewrite neq_len_app', at_idx_app'.
   change ("_"%char :: (x ++ [d])) with (("_"%char :: x) ++ [d]).
   replace (Ascii.eqb "_" ch_uri) with false by reflexivity.
   replace (Ascii.eqb "_" ch_lit) with false by reflexivity.
   replace (Ascii.eqb "_" ch_bnode) with true by reflexivity.
-  assert (L : last_index_bnode_fx (pre ++ (("_"%char :: x) ++ [d]) ++ post) (len pre)
+  assert (L : last_index_bnode_g hs (pre ++ (("_"%char :: x) ++ [d]) ++ post) (len pre)
               = len pre + len (("_"%char :: x) ++ [d]) - 1).
-  { unfold last_index_bnode_fx. rewrite slice_from_app. rewrite index_of_token_end_fx_spec by assumption.
+  { unfold last_index_bnode_g. rewrite slice_from_app. rewrite index_of_token_end_g_spec by assumption.
     rewrite !len_app. lia. }
   rewrite L. rewrite slice_tok by reflexivity. f_equal. lia.
 Qed.
 
-Lemma lookx_lit f pre x post acc :
-  last_index_literal_fx (pre ++ (dq :: x) ++ post) (len pre) = Ok (len pre + len (dq :: x) - 1) ->
-  look_loop_fx (S f) (pre ++ (dq :: x) ++ post) (len pre) acc
-  = look_loop_fx f (pre ++ (dq :: x) ++ post) (len pre + len (dq :: x)) ((dq :: x) :: acc).
+Lemma lookx_lit hs el f pre x post acc :
+  last_index_literal_g hs (pre ++ (dq :: x) ++ post) (len pre) = Ok (len pre + len (dq :: x) - 1) ->
+  look_loop_g hs el (S f) (pre ++ (dq :: x) ++ post) (len pre) acc
+  = look_loop_g hs el f (pre ++ (dq :: x) ++ post) (len pre + len (dq :: x)) ((dq :: x) :: acc).
 Proof.
-  intros L. cbn [look_loop_fx].
+  intros L. cbn [look_loop_g].
   rewrite neq_len_app', at_idx_app'.
   replace (Ascii.eqb dq ch_uri) with false by reflexivity.
   replace (Ascii.eqb dq ch_lit) with true by reflexivity.
   rewrite L. rewrite slice_tok by reflexivity. f_equal. lia.
 Qed.
 
-Lemma look_loop_fx_mono : forall f L i acc r, look_loop_fx f L i acc = Ok r ->
-  forall f', (f <= f')%nat -> look_loop_fx f' L i acc = Ok r.
+Lemma look_loop_g_mono hs el : forall f L i acc r, look_loop_g hs el f L i acc = Ok r ->
+  forall f', (f <= f')%nat -> look_loop_g hs el f' L i acc = Ok r.
 Proof.
   induction f as [|f IH]; intros L i acc r H f' Hf; [discriminate|].
-  destruct f' as [|f']; [lia|]. cbn [look_loop_fx] in *.
+  destruct f' as [|f']; [lia|]. cbn [look_loop_g] in *.
   destruct (i =? len L); [exact H|].
   destruct (at_idx L i) as [c|]; [|exact H].
   destruct (Ascii.eqb c ch_uri); [apply IH with (f' := f') in H; [exact H | lia]|].
   destruct (Ascii.eqb c ch_lit).
-  { destruct (last_index_literal_fx L i); try exact H. apply IH with (f' := f') in H; [exact H | lia]. }
+  { destruct (last_index_literal_g hs L i); try exact H. apply IH with (f' := f') in H; [exact H | lia]. }
   destruct (Ascii.eqb c ch_bnode); [apply IH with (f' := f') in H; [exact H | lia]|].
   destruct (Ascii.eqb c ch_dot); [exact H|].
   destruct (is_ascii_digit c); apply IH with (f' := f') in H; (exact H || lia).
 Qed.
 
-Lemma chain_fx L St s1 Pt s2 Ot pd tail fuel :
+Lemma chain_fx hs el L St s1 Pt s2 Ot pd tail fuel :
   L = St ++ s1 ++ Pt ++ s2 ++ Ot ++ pd ++ "."%char :: tail ->
   all_ws s1 = true -> all_ws s2 = true -> all_ws pd = true ->
-  (forall f acc, look_loop_fx (S f) L 0 acc = look_loop_fx f L (len St) (St :: acc)) ->
-  (forall f acc, look_loop_fx (S f) L (len St + len s1) acc
-                 = look_loop_fx f L (len St + len s1 + len Pt) (Pt :: acc)) ->
-  (forall f acc, look_loop_fx (S f) L (len St + len s1 + len Pt + len s2) acc
-                 = look_loop_fx f L (len St + len s1 + len Pt + len s2 + len Ot) (Ot :: acc)) ->
+  (forall f acc, look_loop_g hs el (S f) L 0 acc = look_loop_g hs el f L (len St) (St :: acc)) ->
+  (forall f acc, look_loop_g hs el (S f) L (len St + len s1) acc
+                 = look_loop_g hs el f L (len St + len s1 + len Pt) (Pt :: acc)) ->
+  (forall f acc, look_loop_g hs el (S f) L (len St + len s1 + len Pt + len s2) acc
+                 = look_loop_g hs el f L (len St + len s1 + len Pt + len s2 + len Ot) (Ot :: acc)) ->
   (List.length L + 4 <= fuel)%nat ->
-  look_loop_fx fuel L 0 [] = Ok [St; Pt; Ot].
+  look_loop_g hs el fuel L 0 [] = Ok [St; Pt; Ot].
 Proof.
   intros EL W1 W2 W3 H1 H2 H3 Hf.
-  apply look_loop_fx_mono with
+  apply look_loop_g_mono with
     (f := S (List.length s1 + S (List.length s2 + S (List.length pd + 1)))%nat).
   2:{ rewrite EL in Hf. rewrite !app_length in Hf. cbn [List.length] in Hf. lia. }
   rewrite H1.
-  pose proof (fun acc => lookx_skips s1 (S (List.length s2 + S (List.length pd + 1))) St
+  pose proof (fun acc => lookx_skips hs el s1 (S (List.length s2 + S (List.length pd + 1))) St
                 (Pt ++ s2 ++ Ot ++ pd ++ "."%char :: tail) acc W1) as K1.
   rewrite <- EL in K1. rewrite K1. rewrite H2.
   assert (E2 : L = (St ++ s1 ++ Pt) ++ s2 ++ Ot ++ pd ++ "."%char :: tail).
   { rewrite EL. rewrite <- !app_assoc. reflexivity. }
-  pose proof (fun acc => lookx_skips s2 (S (List.length pd + 1)) (St ++ s1 ++ Pt)
+  pose proof (fun acc => lookx_skips hs el s2 (S (List.length pd + 1)) (St ++ s1 ++ Pt)
                 (Ot ++ pd ++ "."%char :: tail) acc W2) as K2.
   rewrite <- E2 in K2. rewrite !len_app in K2. rewrite !Z.add_assoc in K2. rewrite K2. rewrite H3.
   assert (E3 : L = (St ++ s1 ++ Pt ++ s2 ++ Ot) ++ pd ++ "."%char :: tail).
   { rewrite EL. rewrite <- !app_assoc. reflexivity. }
-  pose proof (fun acc => lookx_skips pd 1 (St ++ s1 ++ Pt ++ s2 ++ Ot) ("."%char :: tail) acc W3) as K3.
+  pose proof (fun acc => lookx_skips hs el pd 1 (St ++ s1 ++ Pt ++ s2 ++ Ot) ("."%char :: tail) acc W3) as K3.
   rewrite <- E3 in K3. rewrite !len_app in K3. rewrite !Z.add_assoc in K3. rewrite K3.
   assert (E4 : L = (St ++ s1 ++ Pt ++ s2 ++ Ot ++ pd) ++ "."%char :: tail).
   { rewrite EL. rewrite <- !app_assoc. reflexivity. }
-  pose proof (fun acc => lookx_dot 0 (St ++ s1 ++ Pt ++ s2 ++ Ot ++ pd) tail acc) as K4.
+  pose proof (fun acc => lookx_dot hs el 0 (St ++ s1 ++ Pt ++ s2 ++ Ot ++ pd) tail acc) as K4.
   rewrite <- E4 in K4. rewrite !len_app in K4. rewrite !Z.add_assoc in K4. rewrite K4. reflexivity.
 Qed.
 
@@ -314,12 +354,12 @@ Proof.
     + cbn [List.length] in Hf. lia.
 Qed.
 
-Lemma lil_fx pre lex suf z :
+Lemma lil_fx hs pre lex suf z :
   forallb valid_item lex = true -> lex_utf8 false lex = true -> valid_suffix suf = true -> z_head z ->
-  last_index_literal_fx (pre ++ (dq :: r_lex lex ++ dq :: r_suffix suf) ++ z) (len pre)
+  last_index_literal_g hs (pre ++ (dq :: r_lex lex ++ dq :: r_suffix suf) ++ z) (len pre)
   = Ok (len pre + len (dq :: r_lex lex ++ dq :: r_suffix suf) - 1).
 Proof.
-  intros V U VS Z. unfold last_index_literal_fx.
+  intros V U VS Z. unfold last_index_literal_g.
   set (t := pre ++ (dq :: r_lex lex ++ dq :: r_suffix suf) ++ z).
   assert (E1 : t = (pre ++ [dq]) ++ r_lex lex ++ dq :: (r_suffix suf ++ z)).
   { unfold t. cbn [app]. rewrite <- !app_assoc. cbn [app]. reflexivity. }
@@ -379,25 +419,31 @@ Proof.
   unfold C06_dom_fx, root_causes_fx. cbn [forallb negb andb]. rewrite !andb_true_iff, !negb_true_iff. tauto.
 Qed.
 
-Lemma follow_fx_after_obj t l : all_ws (predot l) = true ->
+Lemma follow_fx_after_obj hs t l : all_ws (predot l) = true ->
   (match comment l with Some (w, _) => all_ws w = true | None => True end) ->
-  is_bnode_obj t = true -> rc_F7_fx t l = false -> token_follow_fx (after_obj l).
+  is_bnode_obj t = true -> rc_F7_fx3 hs t l = false -> token_follow_g hs (after_obj l).
 Proof.
-  unfold rc_F7_fx, after_obj, r_tail. intros W WC B R. rewrite B in R. cbn [andb] in R.
+  unfold rc_F7_fx3, rc_F7_fx, after_obj, r_tail. intros W WC B R. rewrite B in R. cbn [andb] in R.
   destruct (predot l) as [|c pd].
   - cbn [str_eqb andb app] in *. destruct (comment l) as [[w txt]|].
-    + destruct w as [|c w]; [discriminate|]. right. right. exists c, (w ++ Str "#" ++ txt). split; [reflexivity|].
-      cbn [all_ws forallb] in WC. apply andb_true_iff in WC. rewrite is_blank_ws. tauto.
+    + destruct w as [|c w].
+      * (* "_:b.#c": only with the switch *)
+        destruct hs; [|discriminate]. right. right. exists "#"%char, txt. split; [reflexivity | exact is_stop_hash].
+      * right. right. exists c, (w ++ Str "#" ++ txt). split; [reflexivity|].
+        cbn [all_ws forallb] in WC. apply andb_true_iff in WC. apply is_stop_blank. rewrite is_blank_ws. tauto.
     + right. left. reflexivity.
   - left. exists c, (pd ++ "."%char :: match comment l with Some (w, txt) => w ++ Str "#" ++ txt | None => [] end).
-    split; [reflexivity|]. cbn [all_ws forallb] in W. apply andb_true_iff in W. rewrite is_blank_ws. tauto.
+    split; [reflexivity|]. cbn [all_ws forallb] in W. apply andb_true_iff in W. apply is_stop_blank. rewrite is_blank_ws. tauto.
 Qed.
 
-Lemma follow_fx_sep w rest : all_ws w = true -> str_eqb w [] = false -> token_follow_fx (w ++ rest).
+Lemma follow_fx_sep hs w rest : all_ws w = true -> str_eqb w [] = false -> token_follow_g hs (w ++ rest).
 Proof.
   intros W N. destruct w as [|c w]; [discriminate|]. left. exists c, (w ++ rest). split; [reflexivity|].
-  cbn [all_ws forallb] in W. apply andb_true_iff in W. rewrite is_blank_ws. tauto.
+  cbn [all_ws forallb] in W. apply andb_true_iff in W. apply is_stop_blank. rewrite is_blank_ws. tauto.
 Qed.
+
+Lemma label_char_nonstop hs c : label_char c = true -> negb (is_stop hs c) = true.
+Proof. destruct hs; ascii_cases c; cbn; intros H; try reflexivity; discriminate. Qed.
 
 Lemma valid_label_last lab : valid_label lab = true -> exists lab' d, lab = lab' ++ [d] /\ d <> "."%char.
 Proof.
@@ -407,25 +453,25 @@ Proof.
   rewrite E in H. rewrite last_last in H. intros ->. discriminate.
 Qed.
 
-Lemma bnode_step_fx f pre lab post acc :
-  valid_label lab = true -> token_follow_fx post ->
-  look_loop_fx (S f) (pre ++ r_bn lab ++ post) (len pre) acc
-  = look_loop_fx f (pre ++ r_bn lab ++ post) (len pre + len (r_bn lab)) (r_bn lab :: acc).
+Lemma bnode_step_fx hs el f pre lab post acc :
+  valid_label lab = true -> token_follow_g hs post ->
+  look_loop_g hs el (S f) (pre ++ r_bn lab ++ post) (len pre) acc
+  = look_loop_g hs el f (pre ++ r_bn lab ++ post) (len pre + len (r_bn lab)) (r_bn lab :: acc).
 Proof.
   intros V T. destruct (valid_label_last _ V) as (lab' & d & E & Hd).
   assert (S : r_bn lab = ("_"%char :: ":"%char :: lab') ++ [d]) by (unfold r_bn; rewrite E; reflexivity).
   rewrite S. apply lookx_bnode; try assumption.
-  rewrite <- S. unfold r_bn. cbn [forallb]. replace (negb (is_blank "_")) with true by reflexivity.
-  replace (negb (is_blank ":")) with true by reflexivity. cbn [andb].
-  apply (forallb_impl label_char); [exact label_char_nonblank | apply valid_label_chars; exact V].
+  rewrite <- S. unfold r_bn. cbn [forallb]. replace (negb (is_stop hs "_")) with true by (destruct hs; reflexivity).
+  replace (negb (is_stop hs ":")) with true by (destruct hs; reflexivity). cbn [andb].
+  apply (forallb_impl label_char); [exact (label_char_nonstop hs) | apply valid_label_chars; exact V].
 Qed.
 
 (** ** the object token *)
-Lemma obj_step_fx s p o l pre :
-  valid_obj o = true -> obj_utf8 o = true -> valid_layout l = true -> rc_F7_fx (STriple s p o) l = false ->
+Lemma obj_step_fx hs el s p o l pre :
+  valid_obj o = true -> obj_utf8 o = true -> valid_layout l = true -> rc_F7_fx3 hs (STriple s p o) l = false ->
   forall f acc,
-    look_loop_fx (S f) (pre ++ r_obj o ++ after_obj l) (len pre) acc
-    = look_loop_fx f (pre ++ r_obj o ++ after_obj l) (len pre + len (r_obj o)) (r_obj o :: acc).
+    look_loop_g hs el (S f) (pre ++ r_obj o ++ after_obj l) (len pre) acc
+    = look_loop_g hs el f (pre ++ r_obj o ++ after_obj l) (len pre + len (r_obj o)) (r_obj o :: acc).
 Proof.
   intros V U VL R7 f acc.
   destruct (layout_parts _ VL) as (W1 & N1 & W2 & N2 & W3 & WC & CC).
@@ -433,36 +479,36 @@ Proof.
   - cbn [valid_obj valid_node] in V. cbn [r_obj r_node].
     change (Str "<" ++ u ++ Str ">") with (r_iri u). apply lookx_uri. apply iri_no_gt. exact V.
   - cbn [valid_obj valid_node] in V. cbn [r_obj r_node]. change (Str "_:" ++ lab) with (r_bn lab).
-    apply bnode_step_fx; [exact V|]. apply (follow_fx_after_obj (STriple s p (ONode (NBn lab)))); auto.
+    apply bnode_step_fx; [exact V|]. apply (follow_fx_after_obj hs (STriple s p (ONode (NBn lab)))); auto.
   - cbn [valid_obj] in V. apply andb_true_iff in V. destruct V as [V VS]. cbn [obj_utf8] in U.
     cbn [r_obj]. apply lookx_lit.
     apply lil_fx; try assumption. apply after_obj_head. exact W3.
 Qed.
 
-Lemma subj_step_fx n rest : valid_node n = true -> token_follow_fx rest ->
-  forall f acc, look_loop_fx (S f) (r_node n ++ rest) 0 acc
-                = look_loop_fx f (r_node n ++ rest) (len (r_node n)) (r_node n :: acc).
+Lemma subj_step_fx hs el n rest : valid_node n = true -> token_follow_g hs rest ->
+  forall f acc, look_loop_g hs el (S f) (r_node n ++ rest) 0 acc
+                = look_loop_g hs el f (r_node n ++ rest) (len (r_node n)) (r_node n :: acc).
 Proof.
   intros V T f acc. destruct n as [u|lab]; cbn [valid_node r_node] in *.
   - change (Str "<" ++ u ++ Str ">") with (r_iri u).
-    pose proof (lookx_uri f [] u rest acc (iri_no_gt _ V)) as K. cbn [app] in K. rewrite len_nil in K.
+    pose proof (lookx_uri hs el f [] u rest acc (iri_no_gt _ V)) as K. cbn [app] in K. rewrite len_nil in K.
     rewrite Z.add_0_l in K. exact K.
   - change (Str "_:" ++ lab) with (r_bn lab).
-    pose proof (bnode_step_fx f [] lab rest acc V T) as K. cbn [app] in K. rewrite len_nil in K.
+    pose proof (bnode_step_fx hs el f [] lab rest acc V T) as K. cbn [app] in K. rewrite len_nil in K.
     rewrite Z.add_0_l in K. exact K.
 Qed.
 
-Lemma tokens_of_line_fx t l :
-  valid_triple t = true -> valid_layout l = true -> rc_F7_fx t l = false ->
-  look_for_tokens_fx (nt_line t l) = Ok [r_node (t_s t); r_iri (t_p t); r_obj (t_o t)].
+Lemma tokens_of_line_fx hs el t l :
+  valid_triple t = true -> valid_layout l = true -> rc_F7_fx3 hs t l = false ->
+  look_for_tokens_g hs el (nt_line t l) = Ok [r_node (t_s t); r_iri (t_p t); r_obj (t_o t)].
 Proof.
   intros V VL D. destruct t as [s p o]. cbn [t_s t_p t_o] in *.
   unfold valid_triple in V. cbn [t_s t_p t_o] in V.
   apply andb_true_iff in V. destruct V as [V Vu]. apply andb_true_iff in V. destruct V as [V Vo].
   apply andb_true_iff in V. destruct V as [Vs Vp].
   destruct (layout_parts _ VL) as (W1 & N1 & W2 & N2 & W3 & WC & CC).
-  unfold look_for_tokens_fx.
-  apply (chain_fx _ (r_node s) (sep1 l) (r_iri p) (sep2 l) (r_obj o) (predot l) (r_tail (comment l))).
+  unfold look_for_tokens_g.
+  apply (chain_fx hs el _ (r_node s) (sep1 l) (r_iri p) (sep2 l) (r_obj o) (predot l) (r_tail (comment l))).
   - apply nt_line_shape.
   - exact W1.
   - exact W2.
@@ -480,12 +526,15 @@ Proof.
       by (unfold after_obj; rewrite <- !app_assoc; reflexivity).
     replace (len (r_node s) + len (sep1 l) + len (r_iri p) + len (sep2 l))
       with (len (r_node s ++ sep1 l ++ r_iri p ++ sep2 l)) by (rewrite !len_app; lia).
-    apply (obj_step_fx s p); assumption.
+    apply (obj_step_fx hs el s p); assumption.
   - unfold line_fuel. lia.
 Qed.
 
-Lemma f7_norm t l : rc_F7_fx t (norm_layout l) = rc_F7_fx t l.
-Proof. unfold rc_F7_fx, norm_layout. cbn [predot comment]. destruct (comment l) as [[w txt]|]; reflexivity. Qed.
+Lemma f7_norm hs t l : rc_F7_fx3 hs t (norm_layout l) = rc_F7_fx3 hs t l.
+Proof. unfold rc_F7_fx3, rc_F7_fx, norm_layout. cbn [predot comment]. destruct (comment l) as [[w txt]|]; reflexivity. Qed.
+
+Lemma f7_fx3_false t l : rc_F7_fx3 false t l = rc_F7_fx t l.
+Proof. reflexivity. Qed.
 
 (** ** typing of the object token (unchanged [decide_literal_type]) *)
 Lemma f3_plain s p lex : rc_F3 (STriple s p (OLit lex SufNone)) = false ->
@@ -513,8 +562,8 @@ Lemma process_line_fx_ok allow t l :
   valid_triple t = true -> valid_layout l = true -> C06_dom_fx t l = true ->
   exists s o, process_line_fx allow (nt_line t l) = LYield s (t_p t) o /\ k3 (s, t_p t, o) = kinded t.
 Proof.
-  intros V VL D. unfold process_line_fx. rewrite strip_line.
-  destruct (dom_fx_parts _ _ D) as (R3 & R4 & R5 & R7).
+  intros V VL D. unfold process_line_fx, process_line_g. rewrite strip_line.
+  destruct (dom_fx_parts _ _ D) as (R3 & R4 & R5 & R7). rewrite <- f7_fx3_false in R7.
   rewrite tokens_of_line_fx by first [assumption | apply valid_layout_norm; assumption | rewrite f7_norm; assumption].
   destruct t as [s p o]. cbn [t_s t_p t_o] in *.
   unfold valid_triple in V. cbn [t_s t_p t_o] in V.
@@ -585,7 +634,7 @@ Qed.
 Lemma document_partial_fx allow ts : Forall ok_case_fx ts ->
   kinded_result (read_raw_string_fx allow (nt_doc ts)) = Some (map (fun x => kinded (fst x)) ts, 0%nat).
 Proof.
-  intros H. unfold read_raw_string_fx. rewrite raw_lines_doc_valid.
+  intros H. unfold read_raw_string_fx, read_raw_string_g. change (process_line_g false false) with process_line_fx. rewrite raw_lines_doc_valid.
   - destruct (run_lines_fx_ok allow ts [] 0%nat H) as (ys & R & M). rewrite R. cbn [kinded_result rev app].
     rewrite M. reflexivity.
   - eapply Forall_impl; [|exact H]. intros x (A & B & _). auto.
@@ -702,11 +751,11 @@ Proof.
     rewrite (forallb_impl iri_char _ d iri_char_nospace IC). reflexivity.
 Qed.
 
-Lemma process_line_fx2_ok allow t l :
-  valid_triple t = true -> valid_layout l = true -> rc_F7_fx t l = false ->
-  exists s o, process_line_fx2 allow (nt_line t l) = LYield s (t_p t) o /\ k3 (s, t_p t, o) = kinded t.
+Lemma process_line_g2_ok hs el allow t l :
+  valid_triple t = true -> valid_layout l = true -> rc_F7_fx3 hs t l = false ->
+  exists s o, process_line_g2 hs el allow (nt_line t l) = LYield s (t_p t) o /\ k3 (s, t_p t, o) = kinded t.
 Proof.
-  intros V VL R7. unfold process_line_fx2. rewrite strip_line.
+  intros V VL R7. unfold process_line_g2. rewrite strip_line.
   rewrite tokens_of_line_fx by first [assumption | apply valid_layout_norm; assumption | rewrite f7_norm; assumption].
   destruct t as [s p o]. cbn [t_s t_p t_o] in *.
   unfold valid_triple in V. cbn [t_s t_p t_o] in V.
@@ -738,44 +787,77 @@ Proof.
   exists s', o'. split; [reflexivity|]. unfold k3, kinded. cbn [t_s t_p t_o]. rewrite KS, KO. reflexivity.
 Qed.
 
-Definition ok_case_fx2 (x : striple * layout) : Prop :=
-  valid_triple (fst x) = true /\ valid_layout (snd x) = true /\ C06_dom_fx2 (fst x) (snd x) = true.
+Definition ok_case_g2 (hs : bool) (x : striple * layout) : Prop :=
+  valid_triple (fst x) = true /\ valid_layout (snd x) = true /\ C06_dom_fx3 hs (fst x) (snd x) = true.
 
-Lemma dom_fx2_f7 t l : C06_dom_fx2 t l = true -> rc_F7_fx t l = false.
-Proof. unfold C06_dom_fx2, root_causes_fx2. cbn [forallb negb andb]. rewrite andb_true_r. apply negb_true_iff. Qed.
+Lemma dom_fx3_f7 hs t l : C06_dom_fx3 hs t l = true -> rc_F7_fx3 hs t l = false.
+Proof. unfold C06_dom_fx3, root_causes_fx3. cbn [forallb negb andb]. rewrite andb_true_r. apply negb_true_iff. Qed.
 
-Lemma run_lines_fx2_ok allow : forall ts acc errs, Forall ok_case_fx2 ts ->
-  exists ys, run_lines_g (process_line_fx2 allow) (map (fun x => nt_line (fst x) (snd x)) ts) acc errs
+Lemma run_lines_g2_ok hs el allow : forall ts acc errs, Forall (ok_case_g2 hs) ts ->
+  exists ys, run_lines_g (process_line_g2 hs el allow) (map (fun x => nt_line (fst x) (snd x)) ts) acc errs
              = DocDone (rev acc ++ ys) errs /\
              map k3 ys = map (fun x => kinded (fst x)) ts.
 Proof.
   induction ts as [|[t l] ts IH]; intros acc errs H.
   - exists []. cbn. rewrite app_nil_r. split; reflexivity.
   - inversion H as [|? ? [V [VL D]] H']; subst. cbn [fst snd] in *. cbn [map run_lines_g fst snd].
-    destruct (process_line_fx2_ok allow t l V VL (dom_fx2_f7 _ _ D)) as (s & o & E & K). rewrite E.
+    destruct (process_line_g2_ok hs el allow t l V VL (dom_fx3_f7 _ _ _ D)) as (s & o & E & K). rewrite E.
     destruct (IH ((s, t_p t, o) :: acc) errs H') as (ys & R & M). exists ((s, t_p t, o) :: ys). split.
     + rewrite R. cbn [rev]. rewrite <- app_assoc. reflexivity.
     + cbn [map]. rewrite K, M. reflexivity.
 Qed.
 
-Lemma document_partial_fx2 allow ts : Forall ok_case_fx2 ts ->
-  kinded_result (read_raw_string_fx2 allow (nt_doc ts)) = Some (map (fun x => kinded (fst x)) ts, 0%nat).
+Lemma document_partial_g2 hs el allow ts : Forall (ok_case_g2 hs) ts ->
+  kinded_result (read_raw_string_g2 hs el allow (nt_doc ts)) = Some (map (fun x => kinded (fst x)) ts, 0%nat).
 Proof.
-  intros H. unfold read_raw_string_fx2. rewrite raw_lines_doc_valid.
-  - destruct (run_lines_fx2_ok allow ts [] 0%nat H) as (ys & R & M). rewrite R. cbn [kinded_result rev app].
+  intros H. unfold read_raw_string_g2. rewrite raw_lines_doc_valid.
+  - destruct (run_lines_g2_ok hs el allow ts [] 0%nat H) as (ys & R & M). rewrite R. cbn [kinded_result rev app].
     rewrite M. reflexivity.
   - eapply Forall_impl; [|exact H]. intros x (A & B & _). auto.
 Qed.
 
+Lemma line_partial_g2 hs el allow t l :
+  valid_triple t = true -> valid_layout l = true -> C06_dom_fx3 hs t l = true ->
+  kinded_result (read_raw_string_g2 hs el allow (nt_line t l)) = Some ([kinded t], 0%nat).
+Proof.
+  intros V VL D. apply (document_partial_g2 hs el allow [(t, l)]). constructor; [|constructor].
+  unfold ok_case_g2. cbn [fst snd]. auto.
+Qed.
+
+(** the reader without comment-glued-to-dot is the instance [false false]: its domain is [C06_dom_fx2] *)
+Definition ok_case_fx2 (x : striple * layout) : Prop :=
+  valid_triple (fst x) = true /\ valid_layout (snd x) = true /\ C06_dom_fx2 (fst x) (snd x) = true.
+
+Lemma dom_fx3_false t l : C06_dom_fx3 false t l = C06_dom_fx2 t l.
+Proof. reflexivity. Qed.
+
+Lemma document_partial_fx2 allow ts : Forall ok_case_fx2 ts ->
+  kinded_result (read_raw_string_fx2 allow (nt_doc ts)) = Some (map (fun x => kinded (fst x)) ts, 0%nat).
+Proof. exact (document_partial_g2 false false allow ts). Qed.
+
 Lemma line_partial_fx2 allow t l :
   valid_triple t = true -> valid_layout l = true -> C06_dom_fx2 t l = true ->
   kinded_result (read_raw_string_fx2 allow (nt_line t l)) = Some ([kinded t], 0%nat).
+Proof. exact (line_partial_g2 false false allow t l). Qed.
+
+(** ** with the switch [hs] there is no root cause left: the FULL statement, every valid line *)
+Lemma dom_fx3_total t l : C06_dom_fx3 true t l = true.
+Proof. reflexivity. Qed.
+
+Lemma line_full_g2 el allow t l :
+  valid_triple t = true -> valid_layout l = true ->
+  kinded_result (read_raw_string_g2 true el allow (nt_line t l)) = Some ([kinded t], 0%nat).
+Proof. intros V VL. apply line_partial_g2; [exact V | exact VL | apply dom_fx3_total]. Qed.
+
+Lemma document_full_g2 el allow (ts : list (striple * layout)) :
+  Forall (fun x => valid_triple (fst x) = true /\ valid_layout (snd x) = true) ts ->
+  kinded_result (read_raw_string_g2 true el allow (nt_doc ts)) = Some (map (fun x => kinded (fst x)) ts, 0%nat).
 Proof.
-  intros V VL D. apply (document_partial_fx2 allow [(t, l)]). constructor; [|constructor].
-  unfold ok_case_fx2. cbn [fst snd]. auto.
+  intros H. apply document_partial_g2. eapply Forall_impl; [|exact H]. intros x (A & B).
+  unfold ok_case_g2. auto using dom_fx3_total.
 Qed.
 
-(** ** the reader /repo has now ([nt_fixed_tok], [nt_fixed_dlt]) *)
+(** ** the reader /repo has now ([nt_fixed_tok], [nt_fixed_dlt], [nt_tok_end_at_hash], [nt_uri_unclosed_to_eol]) *)
 From Shexer Require Import Spec.NtDomCur.
 
 Lemma line_partial_cur allow t l :
@@ -783,7 +865,7 @@ Lemma line_partial_cur allow t l :
   kinded_result (read_raw_string_cur allow (nt_line t l)) = Some ([kinded t], 0%nat).
 Proof.
   unfold C06_dom_cur, read_raw_string_cur. destruct nt_fixed_tok; [destruct nt_fixed_dlt|];
-    [apply line_partial_fx2 | apply line_partial_fx | apply line_partial].
+    [apply line_partial_g2 | apply line_partial_fx | apply line_partial].
 Qed.
 
 Lemma document_partial_cur allow (ts : list (striple * layout)) :
@@ -791,7 +873,7 @@ Lemma document_partial_cur allow (ts : list (striple * layout)) :
   kinded_result (read_raw_string_cur allow (nt_doc ts)) = Some (map (fun x => kinded (fst x)) ts, 0%nat).
 Proof.
   unfold C06_dom_cur, read_raw_string_cur. destruct nt_fixed_tok; [destruct nt_fixed_dlt|];
-    [apply document_partial_fx2 | apply document_partial_fx | apply document_partial].
+    [apply document_partial_g2 | apply document_partial_fx | apply document_partial].
 Qed.
 
 Lemma line_terminates_cur allow t l :
@@ -799,6 +881,27 @@ Lemma line_terminates_cur allow t l :
   forall ys e, read_raw_string_cur allow (nt_line t l) <> DocHang ys e.
 Proof.
   intros V VL D ys e H. pose proof (line_partial_cur allow t l V VL D) as K. rewrite H in K. discriminate.
+Qed.
+
+(** with the switch [nt_tok_end_at_hash] (on top of the earlier repairs) the domain is everything *)
+Lemma dom_cur_total :
+  nt_fixed_tok = true -> nt_fixed_dlt = true -> nt_tok_end_at_hash = true -> forall t l, C06_dom_cur t l = true.
+Proof. intros E1 E2 E3 t l. unfold C06_dom_cur. rewrite E1, E2, E3. apply dom_fx3_total. Qed.
+
+Lemma line_full_cur :
+  nt_fixed_tok = true -> nt_fixed_dlt = true -> nt_tok_end_at_hash = true ->
+  forall allow t l, valid_triple t = true -> valid_layout l = true ->
+  kinded_result (read_raw_string_cur allow (nt_line t l)) = Some ([kinded t], 0%nat).
+Proof. intros E1 E2 E3 allow t l V VL. apply line_partial_cur; auto using dom_cur_total. Qed.
+
+Lemma document_full_cur :
+  nt_fixed_tok = true -> nt_fixed_dlt = true -> nt_tok_end_at_hash = true ->
+  forall allow (ts : list (striple * layout)),
+  Forall (fun x => valid_triple (fst x) = true /\ valid_layout (snd x) = true) ts ->
+  kinded_result (read_raw_string_cur allow (nt_doc ts)) = Some (map (fun x => kinded (fst x)) ts, 0%nat).
+Proof.
+  intros E1 E2 E3 allow ts H. apply document_partial_cur. eapply Forall_impl; [|exact H].
+  intros x (A & B). auto using dom_cur_total.
 Qed.
 
 Lemma forallb_negb_iff rs : forallb negb rs = true <-> Forall (fun b => b = false) rs.
@@ -811,7 +914,7 @@ Qed.
 Lemma dom_cur_iff_no_root_cause t l :
   C06_dom_cur t l = true <-> Forall (fun b => b = false) (root_causes_cur t l).
 Proof.
-  unfold C06_dom_cur, root_causes_cur. destruct nt_fixed_tok; [destruct nt_fixed_dlt|];
+  unfold C06_dom_cur, root_causes_cur, C06_dom_fx3. destruct nt_fixed_tok; [destruct nt_fixed_dlt|];
     [apply forallb_negb_iff | apply forallb_negb_iff | apply dom_iff_no_root_cause].
 Qed.
 
@@ -830,4 +933,10 @@ Proof.
   unfold rc_F7, rc_F7_fx, glued in *. destruct (is_bnode_obj t); [|reflexivity]. cbn [andb orb] in *.
   destruct (str_eqb (predot l) []); [|reflexivity]. cbn [andb] in *.
   destruct (comment l) as [[w txt]|]; [discriminate | reflexivity].
+Qed.
+
+Lemma dom_grows3 hs t l : C06_dom_fx2 t l = true -> C06_dom_fx3 hs t l = true.
+Proof.
+  unfold C06_dom_fx2, C06_dom_fx3, root_causes_fx2, root_causes_fx3, rc_F7_fx3. cbn [forallb negb andb].
+  rewrite !andb_true_r, !negb_true_iff. intros ->. apply andb_false_r.
 Qed.
